@@ -8,7 +8,6 @@ Definition ent := (nat * rect)%type.              (* identity, rectangle *)
 Definition matrix := Z -> Z -> option ent.
 Definition mempty : matrix := fun _ _ => None.
 Definition fill (m : matrix) (r : rect) (e : ent) : matrix := fun x y => if in_rect x y r then Some e else m x y.
-Definition clear (m : matrix) (r : rect) : matrix := fun x y => if in_rect x y r then None else m x y.
 
 (* positions of a rectangle in the order of the Go loops (x outer, y inner): Sheet.Model.rect_cells *)
 Definition scan_cells (r : rect) : list (Z * Z) := rect_cells r.
@@ -41,15 +40,15 @@ Fixpoint flat (n i : nat) (m : matrix) (l : list rect) : matrix * list ent :=
     let '(m2, es) := flat n (S i) m1 l' in (m2, e :: es)
   end.
 
-(* second loop of mergeOverlapCells: a range survives when the matrix still holds it at its top-left position *)
+(* second loop of mergeOverlapCells: a range goes away only when the range now at its top-left position is another
+   one that contains it (it has been joined into that one); a range that merely lies under the bounding box of a
+   join is kept and joined by the next pass *)
+Definition contains (outer inner : rect) : bool :=
+  let '(a1, b1, a2, b2) := outer in let '(c1, d1, c2, d2) := inner in (a1 <=? c1) && (b1 <=? d1) && (c2 <=? a2) && (d2 <=? b2).
 Definition keep (m : matrix) (e : ent) : bool :=
   let '(x1, y1, _, _) := snd e in
-  match m x1 y1 with Some (id, _) => Nat.eqb id (fst e) | None => false end.
-Fixpoint sweep (m : matrix) (l : list ent) : list ent :=
-  match l with
-  | [] => []
-  | e :: l' => if keep m e then e :: sweep (clear m (snd e)) l' else sweep m l'
-  end.
+  match m x1 y1 with Some (id, r) => Nat.eqb id (fst e) || negb (contains r (snd e)) | None => true end.
+Definition sweep (m : matrix) (l : list ent) : list ent := filter (keep m) l.
 
 Definition pass (cells : list rect) : list rect :=
   let '(m, es) := flat (length cells) 0 mempty cells in map snd (sweep m es).
